@@ -1,0 +1,170 @@
+//go:build verif
+
+// Contracts and ghost specification functions for deductive verification (govc).
+// This file is only compiled with the build tag "verif"; it adds no behaviour.
+
+package scte35
+
+func implies(a, b bool) bool { return !a || b }
+
+func exists(lo, hi int, f func(int) bool) bool {
+	for i := lo; i < hi; i++ {
+		if f(i) {
+			return true
+		}
+	}
+	return false
+}
+
+func forall(lo, hi int, f func(int) bool) bool {
+	for i := lo; i < hi; i++ {
+		if !f(i) {
+			return false
+		}
+	}
+	return true
+}
+
+func assert(b bool) {
+	if !b {
+		panic("ghost assert failed")
+	}
+}
+
+// spliceOffsetS is the documented schedule: offset in seconds after the full minute
+// of the k-th splice for perMinute events per minute.
+func spliceOffsetS(perMinute, k int) uint64 {
+	if perMinute == 1 {
+		return 10
+	}
+	if perMinute == 2 {
+		if k == 0 {
+			return 10
+		}
+		return 40
+	}
+	if k == 0 {
+		return 10
+	}
+	if k == 1 {
+		return 36
+	}
+	return 46
+}
+
+// spliceTime: media time of the k-th splice of the minute starting at minuteStart;
+// k == perMinute denotes the first splice of the following minute.
+func spliceTime(minuteStart, timescale uint64, perMinute, k int) uint64 {
+	if k >= perMinute {
+		return minuteStart + 70*timescale
+	}
+	return minuteStart + spliceOffsetS(perMinute, k)*timescale
+}
+
+// announcedBy: the segment (segStart, segEnd] contains the instant 7 s before splice s.
+func announcedBy(segStart, segEnd, timescale, s uint64) bool {
+	return segStart < s-7*timescale && s-7*timescale <= segEnd
+}
+
+// adDur: documented break duration in timescale units.
+func adDur(timescale uint64, perMinute int) uint64 {
+	if perMinute == 1 {
+		return 20 * timescale
+	}
+	return 10 * timescale
+}
+
+// payloadOf: the SpliceInsertParams a splice_info_section was built from (uninterpreted:
+// bit layout and CRC-32 are produced by the gots library and trusted).
+func payloadOf(data []byte) SpliceInsertParams { return SpliceInsertParams{} }
+
+//@ uninterpreted payloadOf
+
+//@ func IsValidSCTE35Interval
+//@   ensures (adsPerMinute == 1 || adsPerMinute == 2 || adsPerMinute == 3) <==> result == nil
+
+//@ func CreateSpliceInsertPayload
+//@   trusted
+//@   ensures payloadOf(result) == p
+//@   allocates
+
+// maxMediaTime bounds media times so that spliceTime*90000 cannot wrap in uint64
+// (2^64/90000; at 90 kHz this is reached in the year 2042).
+const maxMediaTime = 204963823041217
+
+// minuteOf: start of the wall-clock minute (in timescale units) that contains t.
+func minuteOf(t, timescale uint64) uint64 { return t - t%(60*timescale) }
+
+// dueK: the k-th candidate splice (the perMinute scheduled ones of the minute of segStart,
+// then the first one of the next minute) is due in the segment.
+func dueK(segStart, segEnd, timescale uint64, perMinute, k int) bool {
+	return k <= perMinute && announcedBy(segStart, segEnd, timescale, spliceTime(minuteOf(segStart, timescale), timescale, perMinute, k))
+}
+
+// firstDue: index of the first scheduled splice (of the minute of segStart) whose
+// announce instant lies in (segStart, segEnd], or -1.
+func firstDue(segStart, segEnd, timescale uint64, perMinute int) int {
+	if dueK(segStart, segEnd, timescale, perMinute, 0) {
+		return 0
+	}
+	if dueK(segStart, segEnd, timescale, perMinute, 1) {
+		return 1
+	}
+	if dueK(segStart, segEnd, timescale, perMinute, 2) {
+		return 2
+	}
+	if dueK(segStart, segEnd, timescale, perMinute, 3) {
+		return 3
+	}
+	return -1
+}
+
+//@ func CreateEmsgAhead
+//@   returns  (box, err)
+//@   requires 0 < timescale && timescale <= 10000000
+//@   requires segStart <= segEnd && segEnd + 120*timescale <= maxMediaTime
+//@   ensures  invalid: !(perMinute == 1 || perMinute == 2 || perMinute == 3) ==> err != nil && box == nil
+//@   ensures  valid: (perMinute == 1 || perMinute == 2 || perMinute == 3) ==> err == nil
+//@   ensures  iffScheduled: err == nil ==> (box != nil <==> firstDue(segStart, segEnd, timescale, perMinute) >= 0)
+//@   ensures  event: box != nil ==> box.PresentationTime == spliceTime(minuteOf(segStart, timescale), timescale, perMinute, firstDue(segStart, segEnd, timescale, perMinute))
+//@   ensures  fields: box != nil ==> box.Version == 1 && box.TimeScale == uint32(timescale) && box.ID == uint32(box.PresentationTime / timescale) && box.EventDuration == uint32(adDur(timescale, perMinute))
+//@   ensures  payload: box != nil ==> payloadOf(box.MessageData).PtsTime == (box.PresentationTime * 90000 / timescale) % 8589934592 && payloadOf(box.MessageData).Duration == adDur(timescale, perMinute) * 90000 / timescale && payloadOf(box.MessageData).SpliceEventID == box.ID && payloadOf(box.MessageData).OutOfNetworkIndicator && payloadOf(box.MessageData).AutoReturn
+//@   allocates
+//@   loop 1 invariant 0 <= rangeidx && rangeidx <= len(spliceInsertTimes) && len(spliceInsertTimes) == perMinute+1 && !inInterval
+//@   loop 1 invariant minuteStart == minuteOf(segStart, timescale) && adDuration == adDur(timescale, perMinute)
+//@   loop 1 invariant forall k in [0, perMinute+1) :: spliceInsertTimes[k] == spliceTime(minuteStart, timescale, perMinute, k)
+//@   loop 1 invariant forall k in [0, rangeidx) :: !announcedBy(segStart, segEnd, timescale, spliceInsertTimes[k])
+//@   loop 1 invariant (rangeidx > 0 ==> !dueK(segStart, segEnd, timescale, perMinute, 0)) && (rangeidx > 1 ==> !dueK(segStart, segEnd, timescale, perMinute, 1)) && (rangeidx > 2 ==> !dueK(segStart, segEnd, timescale, perMinute, 2)) && (rangeidx > 3 ==> !dueK(segStart, segEnd, timescale, perMinute, 3))
+//@   loop 1 invariant spliceInsertTimes[0] == spliceTime(minuteStart, timescale, perMinute, 0) && spliceInsertTimes[1] == spliceTime(minuteStart, timescale, perMinute, 1) && (perMinute >= 2 ==> spliceInsertTimes[2] == spliceTime(minuteStart, timescale, perMinute, 2)) && (perMinute >= 3 ==> spliceInsertTimes[3] == spliceTime(minuteStart, timescale, perMinute, 3))
+
+// lemmaDueIsAnnounced: whichever minute a scheduled splice belongs to (the minute of
+// segStart plus minuteOffset = 0, 60 s, or >= 120 s; earlier minutes are trivially not due),
+// the segment whose interval (segStart, segEnd] contains the instant 7 s before it carries an
+// event, and that event is this splice (a segment of at most 10 s contains at most one such instant).
+//@ lemma lemmaDueIsAnnounced
+//@   requires 0 < timescale && timescale <= 10000000 && (perMinute == 1 || perMinute == 2 || perMinute == 3) && 0 <= k && k < perMinute
+//@   requires segStart <= segEnd && segEnd - segStart <= 10*timescale && segEnd + 120*timescale <= maxMediaTime
+//@   requires minuteOffset == 0 || minuteOffset == 60*timescale || (minuteOffset >= 120*timescale && minuteOffset <= maxMediaTime)
+func lemmaDueIsAnnounced(segStart, segEnd, timescale uint64, perMinute int, minuteOffset uint64, k int) {
+	s := spliceTime(minuteOf(segStart, timescale)+minuteOffset, timescale, perMinute, k)
+	box, _ := CreateEmsgAhead(segStart, segEnd, timescale, perMinute)
+	if announcedBy(segStart, segEnd, timescale, s) {
+		assert(box != nil)
+		assert(box.PresentationTime == s)
+	}
+}
+
+// lemmaAnnouncedIsDue: an event is only carried by a segment whose interval contains the
+// instant 7 s before the splice, and the splice is one of the scheduled ones.
+//@ lemma lemmaAnnouncedIsDue
+//@   requires 0 < timescale && timescale <= 10000000 && (perMinute == 1 || perMinute == 2 || perMinute == 3)
+//@   requires segStart <= segEnd && segEnd + 120*timescale <= maxMediaTime
+func lemmaAnnouncedIsDue(segStart, segEnd, timescale uint64, perMinute int) {
+	box, _ := CreateEmsgAhead(segStart, segEnd, timescale, perMinute)
+	if box != nil {
+		k := firstDue(segStart, segEnd, timescale, perMinute)
+		assert(0 <= k && k <= perMinute)
+		assert(box.PresentationTime == spliceTime(minuteOf(segStart, timescale), timescale, perMinute, k))
+		assert(announcedBy(segStart, segEnd, timescale, box.PresentationTime))
+	}
+}
